@@ -436,7 +436,7 @@ def build_borealis(sf, case):
 def gen_borealis_case(rng):
     L = rng.choice([10, 20, 37, 60])
     lp = [rng.choice([0.1, -0.1, 3.0, 0.0, 1.0, -2.5, PI / 7]) for _ in range(3)]
-    inrange = rng.random() < 0.7
+    inrange = rng.random() < 0.88
 
     def arr(lo, hi):
         return [rng.uniform(lo, hi) if rng.random() < 0.9 else 0 for _ in range(L)]
@@ -451,7 +451,7 @@ def gen_borealis_case(rng):
     elif u < 0.45:
         k = rng.randrange(3)
         offsets[k] = lp[k] if rng.random() < 0.7 else 0.25
-    mut = rng.choice([None] * 7 + ["no-measure", "first-rgate", "bs-swapped", "bs-phase", "extra-rgate", "homodyne"])
+    mut = rng.choice([None] * 10 + ["no-measure", "first-rgate", "bs-swapped", "bs-phase", "extra-rgate", "homodyne"])
     return dict(kind="borealis", L=L, loop_phases=lp, args=args, offsets=offsets, mut=mut)
 
 
@@ -1085,11 +1085,18 @@ def run(ctx, sf):
         ctx.tally("anchor:x8-fixture-differs")
     else:
         ctx.tally("anchor:x8-fixture-equal")
-    # ---- corpus first
-    for case in corpus_cases():
-        x_oracle(ctx, sf, case)
-    for case in corpus_tdm():
-        borealis_oracle(ctx, sf, fx, case)
+    # ---- corpus first (corpus/C12/*.json: minimised past failures)
+    import json
+    from lib import core
+    for f in sorted((core.VERIF / "corpus" / "C12").glob("*.json")):
+        case = json.loads(f.read_text())
+        ctx.tally("corpus")
+        if case["kind"] == "x":
+            x_oracle(ctx, sf, case)
+        elif case["kind"] == "borealis":
+            borealis_oracle(ctx, sf, fx, case)
+        else:
+            tdm1_oracle(ctx, sf, case)
     # ---- correspondence
     for fn in (corr_ranges, corr_validate, corr_layout_cache, corr_assert_modes, corr_template, corr_merge):
         reqs, pend = fn(ctx, sf)
